@@ -31,6 +31,7 @@ func configsFor(s *world.Schema, ft world.DocFeatures, withAbstractFS bool) []na
 	}
 	if withAbstractFS || (!ft.AbstractCond && !ft.ConcreteUnderInterface) {
 		out = append(out, namedCfg{"FS/register", world.Config{Strat: world.FS, Bind: world.BindRegister, Schema: s}})
+		out = append(out, namedCfg{"FS/register-fields", world.Config{Strat: world.FS, Bind: world.BindRegisterFields, Schema: s}})
 	}
 	if !ft.UnionField && !ft.InterfaceField && !abstractDispatch {
 		out = append(out, namedCfg{"FS/byname", world.Config{Strat: world.FS, Bind: world.BindByName, Schema: s}})
